@@ -1,0 +1,171 @@
+//go:build verif
+
+package memory
+
+// Contracts for the gowp verifier (/verif). Comment-only file.
+//
+// Abstract view of a graph: the set of triples view(m) = { m.idx[u] | u in dom(m.idx) }, keyed by
+// the triple UUID string tu. The six secondary indexes are redundant copies bucketed by component
+// UUIDs; Inv(m) says that they agree with the master map at all times. The spec functions
+// su/ppu/pu/ou/tu and the axiom tu-components live in /verif/spec/uuid.spec.
+
+//@ spec macro kS(t *triple.Triple) String = su(t.s)
+//@ spec macro kP(t *triple.Triple) String = ppu(t.p)
+//@ spec macro kO(t *triple.Triple) String = ou(t.o)
+//@ spec macro kSP(t *triple.Triple) String = su(t.s) + ppu(t.p)
+//@ spec macro kPO(t *triple.Triple) String = ppu(t.p) + ou(t.o)
+//@ spec macro kSO(t *triple.Triple) String = su(t.s) + ou(t.o)
+
+// Shape: seven distinct non-nil maps, none of which is the child of another map.
+//@ spec macro Shape(m *memory) Bool = m != nil && m.idx != nil && distinct(m.idx, m.idxS, m.idxP, m.idxO, m.idxSP, m.idxPO, m.idxSO, 0) && parent(m.idx) == 0 && parent(m.idxS) == 0 && parent(m.idxP) == 0 && parent(m.idxO) == 0 && parent(m.idxSP) == 0 && parent(m.idxPO) == 0 && parent(m.idxSO) == 0
+// I1: the master map is keyed by the UUID of the triple it stores.
+//@ spec macro I1(m *memory) Bool = forall u string :: {has(m.idx, u)} {m.idx[u]} has(m.idx, u) ==> wfTriple(m.idx[u]) && tu(m.idx[u]) == u
+// Index S: buckets are owned (parent link), hold exactly the stored triples with that key, and the same pointers.
+//@ spec macro OwnS(m *memory) Bool = forall k string :: {m.idxS[k]} has(m.idxS, k) ==> m.idxS[k] != nil && allocated(m.idxS[k]) && parent(m.idxS[k]) == m.idxS && pkey(m.idxS[k]) == k
+//@ spec macro I2S(m *memory) Bool = forall k string, u string :: {has(m.idxS[k], u)} {has(m.idxS, k), has(m.idx, u)} (has(m.idxS, k) && has(m.idxS[k], u)) <==> (has(m.idx, u) && kS(m.idx[u]) == k)
+//@ spec macro I3S(m *memory) Bool = forall k string, u string :: {m.idxS[k][u]} has(m.idxS, k) && has(m.idxS[k], u) ==> m.idxS[k][u] == m.idx[u]
+// Index P: buckets are owned (parent link), hold exactly the stored triples with that key, and the same pointers.
+//@ spec macro OwnP(m *memory) Bool = forall k string :: {m.idxP[k]} has(m.idxP, k) ==> m.idxP[k] != nil && allocated(m.idxP[k]) && parent(m.idxP[k]) == m.idxP && pkey(m.idxP[k]) == k
+//@ spec macro I2P(m *memory) Bool = forall k string, u string :: {has(m.idxP[k], u)} {has(m.idxP, k), has(m.idx, u)} (has(m.idxP, k) && has(m.idxP[k], u)) <==> (has(m.idx, u) && kP(m.idx[u]) == k)
+//@ spec macro I3P(m *memory) Bool = forall k string, u string :: {m.idxP[k][u]} has(m.idxP, k) && has(m.idxP[k], u) ==> m.idxP[k][u] == m.idx[u]
+// Index O: buckets are owned (parent link), hold exactly the stored triples with that key, and the same pointers.
+//@ spec macro OwnO(m *memory) Bool = forall k string :: {m.idxO[k]} has(m.idxO, k) ==> m.idxO[k] != nil && allocated(m.idxO[k]) && parent(m.idxO[k]) == m.idxO && pkey(m.idxO[k]) == k
+//@ spec macro I2O(m *memory) Bool = forall k string, u string :: {has(m.idxO[k], u)} {has(m.idxO, k), has(m.idx, u)} (has(m.idxO, k) && has(m.idxO[k], u)) <==> (has(m.idx, u) && kO(m.idx[u]) == k)
+//@ spec macro I3O(m *memory) Bool = forall k string, u string :: {m.idxO[k][u]} has(m.idxO, k) && has(m.idxO[k], u) ==> m.idxO[k][u] == m.idx[u]
+// Index SP: buckets are owned (parent link), hold exactly the stored triples with that key, and the same pointers.
+//@ spec macro OwnSP(m *memory) Bool = forall k string :: {m.idxSP[k]} has(m.idxSP, k) ==> m.idxSP[k] != nil && allocated(m.idxSP[k]) && parent(m.idxSP[k]) == m.idxSP && pkey(m.idxSP[k]) == k
+//@ spec macro I2SP(m *memory) Bool = forall k string, u string :: {has(m.idxSP[k], u)} {has(m.idxSP, k), has(m.idx, u)} (has(m.idxSP, k) && has(m.idxSP[k], u)) <==> (has(m.idx, u) && kSP(m.idx[u]) == k)
+//@ spec macro I3SP(m *memory) Bool = forall k string, u string :: {m.idxSP[k][u]} has(m.idxSP, k) && has(m.idxSP[k], u) ==> m.idxSP[k][u] == m.idx[u]
+// Index PO: buckets are owned (parent link), hold exactly the stored triples with that key, and the same pointers.
+//@ spec macro OwnPO(m *memory) Bool = forall k string :: {m.idxPO[k]} has(m.idxPO, k) ==> m.idxPO[k] != nil && allocated(m.idxPO[k]) && parent(m.idxPO[k]) == m.idxPO && pkey(m.idxPO[k]) == k
+//@ spec macro I2PO(m *memory) Bool = forall k string, u string :: {has(m.idxPO[k], u)} {has(m.idxPO, k), has(m.idx, u)} (has(m.idxPO, k) && has(m.idxPO[k], u)) <==> (has(m.idx, u) && kPO(m.idx[u]) == k)
+//@ spec macro I3PO(m *memory) Bool = forall k string, u string :: {m.idxPO[k][u]} has(m.idxPO, k) && has(m.idxPO[k], u) ==> m.idxPO[k][u] == m.idx[u]
+// Index SO: buckets are owned (parent link), hold exactly the stored triples with that key, and the same pointers.
+//@ spec macro OwnSO(m *memory) Bool = forall k string :: {m.idxSO[k]} has(m.idxSO, k) ==> m.idxSO[k] != nil && allocated(m.idxSO[k]) && parent(m.idxSO[k]) == m.idxSO && pkey(m.idxSO[k]) == k
+//@ spec macro I2SO(m *memory) Bool = forall k string, u string :: {has(m.idxSO[k], u)} {has(m.idxSO, k), has(m.idx, u)} (has(m.idxSO, k) && has(m.idxSO[k], u)) <==> (has(m.idx, u) && kSO(m.idx[u]) == k)
+//@ spec macro I3SO(m *memory) Bool = forall k string, u string :: {m.idxSO[k][u]} has(m.idxSO, k) && has(m.idxSO[k], u) ==> m.idxSO[k][u] == m.idx[u]
+//@ spec macro Inv(m *memory) Bool = Shape(m) && I1(m) && OwnS(m) && I2S(m) && I3S(m) && OwnP(m) && I2P(m) && I3P(m) && OwnO(m) && I2O(m) && I3O(m) && OwnSP(m) && I2SP(m) && I3SP(m) && OwnPO(m) && I2PO(m) && I3PO(m) && OwnSO(m) && I2SO(m) && I3SO(m)
+
+//@ props C01 C02 C07
+
+//@ func (m *memory) AddTriples
+//@   opt terminates
+//@   opt strings opaque
+//@   opt axioms tu-components pu-determines-ppu uuid-length
+//@   requires Inv(m) && m.#lock_rwmu == 0
+//@   requires[triples-well-formed] forall j int :: {ts[j]} 0 <= j && j < len(ts) ==> wfTriple(ts[j])
+//@   modifies contents(m.idx), contents(m.idxS), children(m.idxS), contents(m.idxP), children(m.idxP), contents(m.idxO), children(m.idxO), contents(m.idxSP), children(m.idxSP), contents(m.idxPO), children(m.idxPO), contents(m.idxSO), children(m.idxSO), m.#lock_rwmu
+//@   ensures[inv] Inv(m) && m.#lock_rwmu == 0
+//@   ensures[no-error] result == nil
+//@   ensures[view-grows] forall u string :: {has(m.idx, u)} has(m.idx, u) <==> (old(has(m.idx, u)) || exists j int :: {ts[j]} 0 <= j && j < len(ts) && tu(ts[j]) == u)
+//@   loop 0 invariant[shape] Shape(m) && m.#lock_rwmu == 2 && 0 <= $i && $i <= len(ts)
+//@   loop 0 invariant[parents-stable] forall r int :: {parent(r)} old(allocated(r)) ==> parent(r) == old(parent(r))
+//@   loop 0 invariant[I1] I1(m)
+//@   loop 0 invariant[OwnS] OwnS(m)
+//@   loop 0 invariant[I2S] I2S(m)
+//@   loop 0 invariant[I3S] I3S(m)
+//@   loop 0 invariant[OwnP] OwnP(m)
+//@   loop 0 invariant[I2P] I2P(m)
+//@   loop 0 invariant[I3P] I3P(m)
+//@   loop 0 invariant[OwnO] OwnO(m)
+//@   loop 0 invariant[I2O] I2O(m)
+//@   loop 0 invariant[I3O] I3O(m)
+//@   loop 0 invariant[OwnSP] OwnSP(m)
+//@   loop 0 invariant[I2SP] I2SP(m)
+//@   loop 0 invariant[I3SP] I3SP(m)
+//@   loop 0 invariant[OwnPO] OwnPO(m)
+//@   loop 0 invariant[I2PO] I2PO(m)
+//@   loop 0 invariant[I3PO] I3PO(m)
+//@   loop 0 invariant[OwnSO] OwnSO(m)
+//@   loop 0 invariant[I2SO] I2SO(m)
+//@   loop 0 invariant[I3SO] I3SO(m)
+//@   loop 0 invariant[view-grows] forall u string :: {has(m.idx, u)} has(m.idx, u) <==> (old(has(m.idx, u)) || exists j int :: {ts[j]} 0 <= j && j < $i && tu(ts[j]) == u)
+
+//@ func (m *memory) RemoveTriples
+//@   opt terminates
+//@   opt strings opaque
+//@   opt axioms tu-components pu-determines-ppu uuid-length
+//@   requires Inv(m) && m.#lock_rwmu == 0
+//@   requires[triples-well-formed] forall j int :: {ts[j]} 0 <= j && j < len(ts) ==> wfTriple(ts[j])
+//@   modifies contents(m.idx), contents(m.idxS), children(m.idxS), contents(m.idxP), children(m.idxP), contents(m.idxO), children(m.idxO), contents(m.idxSP), children(m.idxSP), contents(m.idxPO), children(m.idxPO), contents(m.idxSO), children(m.idxSO), m.#lock_rwmu
+//@   ensures[inv] Inv(m) && m.#lock_rwmu == 0
+//@   ensures[no-error] result == nil
+//@   ensures[view-shrinks] forall u string :: {has(m.idx, u)} has(m.idx, u) <==> (old(has(m.idx, u)) && !(exists j int :: {ts[j]} 0 <= j && j < len(ts) && tu(ts[j]) == u))
+//@   ensures[rest-unchanged] forall u string :: {m.idx[u]} has(m.idx, u) ==> m.idx[u] == old(m.idx[u])
+//@   loop 0 invariant[shape] Shape(m) && m.#lock_rwmu == 0 && 0 <= $i && $i <= len(ts)
+//@   loop 0 invariant[parents-stable] forall r int :: {parent(r)} old(allocated(r)) ==> parent(r) == old(parent(r))
+//@   loop 0 invariant[I1] I1(m)
+//@   loop 0 invariant[OwnS] OwnS(m)
+//@   loop 0 invariant[I2S] I2S(m)
+//@   loop 0 invariant[I3S] I3S(m)
+//@   loop 0 invariant[OwnP] OwnP(m)
+//@   loop 0 invariant[I2P] I2P(m)
+//@   loop 0 invariant[I3P] I3P(m)
+//@   loop 0 invariant[OwnO] OwnO(m)
+//@   loop 0 invariant[I2O] I2O(m)
+//@   loop 0 invariant[I3O] I3O(m)
+//@   loop 0 invariant[OwnSP] OwnSP(m)
+//@   loop 0 invariant[I2SP] I2SP(m)
+//@   loop 0 invariant[I3SP] I3SP(m)
+//@   loop 0 invariant[OwnPO] OwnPO(m)
+//@   loop 0 invariant[I2PO] I2PO(m)
+//@   loop 0 invariant[I3PO] I3PO(m)
+//@   loop 0 invariant[OwnSO] OwnSO(m)
+//@   loop 0 invariant[I2SO] I2SO(m)
+//@   loop 0 invariant[I3SO] I3SO(m)
+//@   loop 0 invariant[view-shrinks] forall u string :: {has(m.idx, u)} has(m.idx, u) <==> (old(has(m.idx, u)) && !(exists j int :: {ts[j]} 0 <= j && j < $i && tu(ts[j]) == u))
+//@   loop 0 invariant[rest-unchanged] forall u string :: {m.idx[u]} has(m.idx, u) ==> m.idx[u] == old(m.idx[u])
+
+//@ func (m *memory) Exist
+//@   opt strings opaque
+//@   requires m != nil && m.#lock_rwmu == 0 && wfTriple(t)
+//@   modifies m.#lock_rwmu
+//@   ensures[reflects-view] result0 == has(m.idx, tu(t)) && result1 == nil && m.#lock_rwmu == 0
+
+// The store: names(s) = dom(s.graphs).
+//@ spec macro EmptyGraph(g *memory) Bool = Inv(g) && g.#lock_rwmu == 0 && (forall u string :: {has(g.idx, u)} !has(g.idx, u))
+
+//@ func NewStore
+//@   ensures[empty] result != nil && typeis(result, "*memoryStore") && fresh(unbox(result, "*memoryStore")) && unbox(result, "*memoryStore").graphs != nil && unbox(result, "*memoryStore").#lock_rwmu == 0 && (forall k string :: !has(unbox(result, "*memoryStore").graphs, k))
+
+//@ func (s *memoryStore) NewGraph
+//@   opt strings opaque
+//@   requires s != nil && s.graphs != nil && s.#lock_rwmu == 0
+//@   modifies contents(s.graphs), s.#lock_rwmu
+//@   ensures[lock] s.#lock_rwmu == 0
+//@   ensures[existing-name-fails-without-effect] old(has(s.graphs, id)) ==> result1 != nil && result0 == nil && (forall k string :: {has(s.graphs, k)} has(s.graphs, k) == old(has(s.graphs, k))) && (forall k string :: {s.graphs[k]} s.graphs[k] == old(s.graphs[k]))
+//@   ensures[new-name-added] !old(has(s.graphs, id)) ==> result1 == nil && result0 != nil && has(s.graphs, id) && s.graphs[id] == result0 && (forall k string :: {has(s.graphs, k)} k != id ==> has(s.graphs, k) == old(has(s.graphs, k))) && (forall k string :: {s.graphs[k]} k != id ==> s.graphs[k] == old(s.graphs[k]))
+//@   ensures[new-graph-is-empty-and-fresh] !old(has(s.graphs, id)) ==> typeis(result0, "*memory") && fresh(unbox(result0, "*memory")) && EmptyGraph(unbox(result0, "*memory")) && fresh(unbox(result0, "*memory").idx) && fresh(unbox(result0, "*memory").idxS) && fresh(unbox(result0, "*memory").idxP) && fresh(unbox(result0, "*memory").idxO) && fresh(unbox(result0, "*memory").idxSP) && fresh(unbox(result0, "*memory").idxPO) && fresh(unbox(result0, "*memory").idxSO)
+
+//@ func (s *memoryStore) Graph
+//@   opt strings opaque
+//@   requires s != nil && s.#lock_rwmu == 0
+//@   modifies s.#lock_rwmu
+//@   ensures[lock] s.#lock_rwmu == 0
+//@   ensures[found-iff-present] (result1 == nil) <==> has(s.graphs, id)
+//@   ensures[value] has(s.graphs, id) ==> result0 == s.graphs[id]
+//@   ensures[missing] !has(s.graphs, id) ==> result0 == nil
+
+//@ func (s *memoryStore) DeleteGraph
+//@   opt strings opaque
+//@   requires s != nil && s.#lock_rwmu == 0
+//@   modifies contents(s.graphs), s.#lock_rwmu
+//@   ensures[lock] s.#lock_rwmu == 0
+//@   ensures[dropped-iff-present] (result == nil) <==> old(has(s.graphs, id))
+//@   ensures[only-that-name] (forall k string :: {has(s.graphs, k)} has(s.graphs, k) == (old(has(s.graphs, k)) && k != id)) && (forall k string :: {s.graphs[k]} k != id ==> s.graphs[k] == old(s.graphs[k]))
+
+//@ func (s *memoryStore) GraphNames
+//@   opt terminates
+//@   opt strings opaque
+//@   requires s != nil && s.#lock_rwmu == 0 && (names != nil ==> names.#closed == 0)
+//@   modifies s.#lock_rwmu, names.#out, names.#closed
+//@   ensures[lock] s.#lock_rwmu == 0
+//@   ensures[nil-channel-is-an-error] (result != nil) <==> names == nil
+//@   ensures[closed-once] names != nil ==> names.#closed == 1
+//@   ensures[only-names] forall j int :: {names.#out[j]} old(names.#len) <= j && j < names.#len ==> has(s.graphs, names.#out[j])
+//@   ensures[no-duplicates] forall i int, j int :: {names.#out[i], names.#out[j]} old(names.#len) <= i && i < j && j < names.#len ==> names.#out[i] != names.#out[j]
+//@   ensures[all-names] names != nil ==> forall k string :: {has(s.graphs, k)} has(s.graphs, k) ==> exists j int :: {names.#out[j]} old(names.#len) <= j && j < names.#len && names.#out[j] == k
+//@   loop 0 invariant[lock] s.#lock_rwmu == 1 && names != nil && names.#closed == 0 && names.#len >= old(names.#len)
+//@   loop 0 invariant[sent-are-visited] forall j int :: {names.#out[j]} old(names.#len) <= j && j < names.#len ==> $vis[names.#out[j]] && has(s.graphs, names.#out[j])
+//@   loop 0 invariant[no-duplicates] forall i int, j int :: {names.#out[i], names.#out[j]} old(names.#len) <= i && i < j && j < names.#len ==> names.#out[i] != names.#out[j]
+//@   loop 0 invariant[visited-are-sent] forall k string :: {$vis[k]} $vis[k] ==> exists j int :: {names.#out[j]} old(names.#len) <= j && j < names.#len && names.#out[j] == k
